@@ -7,6 +7,13 @@
                                                                       gen_for (the for/break skeleton), gen_optimize
   quara/interface/cvxpy/conversion.py
       num_cvxpy_variable                                           -> gen_num_cvxpy_variable
+      generate_cvxpy_constraints_from_cvxpy_variable(_with_sparsity) -> gen_constraints_dense / gen_constraints_sparse
+                                                                      (type string, outcome count |-> list of (expression function, outcome index))
+      generate_cvxpy_variable                                      -> shape check only (must be the plain cp.Variable(num))
+  quara/interface/cvxpy/qtomography/standard/loss_function.py
+      CvxpyRelativeEntropy / CvxpyUniformSquaredError / CvxpyApproximateRelativeEntropyWithZeroProbabilityTerm .value_cvxpy
+                                                                   -> gen_cvx_re / gen_cvx_se / gen_cvx_are  (accumulator loops -> sums;
+                                                                      np.log / cp.log -> ln, cp.quad_over_lin(a, b) -> a*a/b)
 
 coq/gen/C11_Equiv.v then re-proves, on every run, that the regenerated definitions equal the hand-written model
 (Model/C11_Pgdb.v: C11_armijo_ok, C11_backtrack, C11_body, C11_optimize; Model/C11_Cvx.v: C11_num_var) the property theorems talk about.
@@ -542,6 +549,210 @@ def tr_num_var(tree):
     return "Definition gen_num_cvxpy_variable (t : string) (dim : Z) (num_outcomes : option Z) : option Z :=\n  %s." % term
 
 
+
+# ------------------------------------------------------------------ CVXPY loss expressions (accumulator loops -> sums)
+class SymEval:
+    """symbolic evaluation of straight-line code with `for v in range(N)` accumulator loops, if/else and augmented assignment over a field:
+    x += e inside a loop over v  ->  x + sumn N (fun v => e)   (accumulators may only be read by their own augmented assignments)"""
+    ABSTR = {"self.eps_prob_zero": ("eps", "F"), "self.sqt.num_schedules": ("S", "nat")}
+
+    def ex(self, e, env):
+        src = ast.unparse(e)
+        if src in self.ABSTR:
+            return self.ABSTR[src][0]
+        if isinstance(e, ast.Constant) and isinstance(e.value, (int, float)) and not isinstance(e.value, bool):
+            if float(e.value) == 0.0:
+                return "(c0 F)"
+            if float(e.value) == 1.0:
+                return "(c1 F)"
+            if float(e.value) == 0.5:
+                return "(C11_half F)"
+            fail(e, "constant %r" % (e.value,))
+        if isinstance(e, ast.Name):
+            if e.id not in env:
+                fail(e, "unknown variable %s" % e.id)
+            return env[e.id]
+        if isinstance(e, ast.Subscript):
+            # self.prob_dists_data[i][j] -> q i j ;  self.num_data_ratios[i] -> c i
+            if isinstance(e.value, ast.Subscript) and ast.unparse(e.value.value) == "self.prob_dists_data":
+                return "(q %s %s)" % (self.idx(e.value.slice, env), self.idx(e.slice, env))
+            if ast.unparse(e.value) == "self.num_data_ratios":
+                return "(c %s)" % self.idx(e.slice, env)
+            fail(e, "subscript %s" % src)
+        if isinstance(e, ast.BinOp):
+            a, b = self.ex(e.left, env), self.ex(e.right, env)
+            ops = {ast.Add: "cadd", ast.Sub: "csub", ast.Mult: "cmul"}
+            if type(e.op) in ops:
+                return "(%s F %s %s)" % (ops[type(e.op)], a, b)
+            fail(e, "operator")
+        if isinstance(e, ast.Call):
+            fn = ast.unparse(e.func)
+            if fn in ("np.log", "cp.log") and len(e.args) == 1 and not e.keywords:
+                return "(ln %s)" % self.ex(e.args[0], env)
+            if fn == "cp.quad_over_lin" and len(e.args) == 2 and not e.keywords:
+                a = self.ex(e.args[0], env)
+                return "(kdiv F (cmul F %s %s) %s)" % (a, a, self.ex(e.args[1], env))
+            if fn == "self.calc_prob_model" and len(e.args) == 3 and not e.keywords and ast.unparse(e.args[2]) == "var":
+                return "(p %s %s)" % (self.idx(e.args[0], env), self.idx(e.args[1], env))
+            fail(e, "call %s" % fn)
+        fail(e, "expression %s" % src)
+
+    def idx(self, e, env):
+        if isinstance(e, ast.Name) and env.get(e.id, "").startswith("#idx:"):
+            return env[e.id][5:]
+        fail(e, "index expression %s" % ast.unparse(e))
+
+    def cond(self, e, env):
+        if isinstance(e, ast.Compare) and len(e.ops) == 1 and isinstance(e.ops[0], ast.Gt):
+            return "(negb (kleb F %s %s))" % (self.ex(e.left, env), self.ex(e.comparators[0], env))
+        fail(e, "condition %s" % ast.unparse(e))
+
+    def rng(self, e, env):
+        if isinstance(e, ast.Call) and ast.unparse(e.func) == "range" and len(e.args) == 1:
+            src = ast.unparse(e.args[0])
+            if src == "self.sqt.num_schedules":
+                return "S"
+            if isinstance(e.args[0], ast.Call) and ast.unparse(e.args[0].func) == "self.sqt.num_outcomes" and len(e.args[0].args) == 1:
+                return "(nout %s)" % self.idx(e.args[0].args[0], env)
+        fail(e, "loop range %s" % ast.unparse(e))
+
+    def block(self, stmts, env):
+        """returns the new environment, or ('return', expr)"""
+        env = dict(env)
+        for st in stmts:
+            if isinstance(st, ast.Assign) and len(st.targets) == 1 and isinstance(st.targets[0], ast.Name):
+                env[st.targets[0].id] = self.ex(st.value, env)
+            elif isinstance(st, ast.AugAssign) and isinstance(st.target, ast.Name) and isinstance(st.op, (ast.Add, ast.Sub)):
+                if st.target.id not in env:
+                    fail(st, "augmented assignment to an undefined variable")
+                if st.target.id in names_read(st.value):
+                    fail(st, "accumulator read in its own increment")
+                env[st.target.id] = "(%s F %s %s)" % ("cadd" if isinstance(st.op, ast.Add) else "csub", env[st.target.id], self.ex(st.value, env))
+            elif isinstance(st, ast.For) and isinstance(st.target, ast.Name) and not st.orelse:
+                n = self.rng(st.iter, env)
+                v = st.target.id
+                accs = sorted({x.target.id for x in ast.walk(st) if isinstance(x, ast.AugAssign) and isinstance(x.target, ast.Name)} & set(env))
+                plain = {t.id for x in ast.walk(st) if isinstance(x, ast.Assign) for t in x.targets if isinstance(t, ast.Name)}
+                if set(accs) & plain:
+                    fail(st, "an accumulator is also plainly assigned in the loop")
+                for x in ast.walk(st):        # accumulators are read only by their own augmented assignment
+                    if isinstance(x, ast.Name) and isinstance(x.ctx, ast.Load) and x.id in accs:
+                        fail(st, "accumulator %s is read inside the loop" % x.id)
+                inner = dict(env)
+                inner[v] = "#idx:" + v
+                for a in accs:
+                    inner[a] = "(c0 F)"
+                out = self.block(st.body, inner)
+                if isinstance(out, tuple):
+                    fail(st, "return inside a loop")
+                for a in accs:
+                    env[a] = "(cadd F %s (sumn %s (fun %s => %s)))" % (env[a], n, v, out[a])
+            elif isinstance(st, ast.If):
+                c = self.cond(st.test, env)
+                t_env, f_env = self.block(st.body, env), self.block(st.orelse, env)
+                if isinstance(t_env, tuple) or isinstance(f_env, tuple):
+                    fail(st, "return inside a conditional")
+                for k in set(t_env) & set(f_env):
+                    if t_env[k] != f_env[k]:
+                        if k not in env:
+                            fail(st, "variable %s defined differently in the two branches" % k)
+                        env[k] = "(if %s then %s else %s)" % (c, t_env[k], f_env[k])
+            elif isinstance(st, ast.Return):
+                return ("return", self.ex(st.value, env))
+            else:
+                fail(st, "statement %s" % ast.unparse(st)[:60])
+        return env
+
+
+def tr_cvx_loss(tree, cls, coq_name):
+    fdef = get_method(tree, cls, "value_cvxpy")
+    if [a.arg for a in fdef.args.args] != ["self", "var"]:
+        fail(fdef, "signature of %s.value_cvxpy" % cls)
+    body = strip_doc(fdef.body)
+    if not (isinstance(body[0], ast.If) and ast.unparse(body[0].test) == "self.on_prob_dists_data is False"
+            and len(body[0].body) == 1 and isinstance(body[0].body[0], ast.Raise) and not body[0].orelse):
+        fail(fdef, "%s.value_cvxpy does not start with the prob_dists_data guard" % cls)
+    out = SymEval().block(body[1:], {})
+    if not isinstance(out, tuple):
+        fail(fdef, "%s.value_cvxpy does not return" % cls)
+    return ("Definition %s (ln : F -> F) (S : nat) (nout : nat -> nat) (c : nat -> F) (q p : nat -> nat -> F) (eps : F) : F :=\n  %s." % (coq_name, out[1]))
+
+
+# ------------------------------------------------------------------ the two constraint generators and generate_cvxpy_variable
+def tr_constraints(tree, fname, coq_name):
+    fdef = next((f for f in tree.body if isinstance(f, ast.FunctionDef) and f.name == fname), None)
+    if fdef is None:
+        raise Unsupported("%s not found" % fname)
+    if [a.arg for a in fdef.args.args] != ["c_sys", "t", "var", "num_outcomes"]:
+        fail(fdef, "signature of %s" % fname)
+    body = strip_doc(fdef.body)
+    if not (len(body) == 2 and isinstance(body[0], ast.If) and isinstance(body[1], ast.Return) and ast.unparse(body[1].value) == "constraints"):
+        fail(fdef, "%s is not one if-chain followed by `return constraints`" % fname)
+
+    def psd_of(e, loopvar, mats):
+        """EXPR >> 0  ->  (function name, index term)"""
+        if not (isinstance(e, ast.BinOp) and isinstance(e.op, ast.RShift) and isinstance(e.right, ast.Constant) and e.right.value == 0):
+            fail(e, "constraint is not `expr >> 0`")
+        l = e.left
+        if isinstance(l, ast.Call) and isinstance(l.func, ast.Name) and not l.keywords:
+            args = [ast.unparse(a) for a in l.args]
+            if args == ["c_sys", "var"] and loopvar is None:
+                return l.func.id, "O"
+            if loopvar is not None and args == ["c_sys", "num_outcomes", loopvar, "var"]:
+                return l.func.id, loopvar
+            fail(l, "arguments %s of %s" % (args, l.func.id))
+        if isinstance(l, ast.Subscript) and isinstance(l.value, ast.Name) and l.value.id in mats and loopvar is not None and ast.unparse(l.slice) == loopvar:
+            return mats[l.value.id], loopvar
+        fail(e, "constraint expression %s" % ast.unparse(e))
+
+    def branch(stmts):
+        mats = {}
+        st = list(stmts)
+        if (len(st) == 1 and isinstance(st[0], ast.Assign) and ast.unparse(st[0].targets[0]) == "constraints" and isinstance(st[0].value, ast.List)
+                and len(st[0].value.elts) == 1):
+            f, _ = psd_of(st[0].value.elts[0], None, mats)
+            return 'Some [("%s", O)]' % f
+        if st and isinstance(st[0], ast.Assign) and isinstance(st[0].value, ast.Call) and isinstance(st[0].value.func, ast.Name) \
+                and [ast.unparse(a) for a in st[0].value.args] == ["c_sys", "var"] and not st[0].value.keywords and isinstance(st[0].targets[0], ast.Name) \
+                and st[0].targets[0].id != "constraints":
+            mats[st[0].targets[0].id] = st[0].value.func.id
+            st = st[1:]
+        if (len(st) == 2 and ast.unparse(st[0]) == "constraints = []" and isinstance(st[1], ast.For) and isinstance(st[1].target, ast.Name)
+                and ast.unparse(st[1].iter) == "range(num_outcomes)" and not st[1].orelse and len(st[1].body) == 1
+                and isinstance(st[1].body[0], ast.Expr) and isinstance(st[1].body[0].value, ast.Call)
+                and ast.unparse(st[1].body[0].value.func) == "constraints.append" and len(st[1].body[0].value.args) == 1):
+            f, _ = psd_of(st[1].body[0].value.args[0], st[1].target.id, mats)
+            return 'Some (map (fun x => ("%s", x)) (seq 0 num_outcomes))' % f
+        if len(st) == 1 and isinstance(st[0], ast.Raise):
+            return "None"
+        fail(stmts[0], "branch of %s" % fname)
+
+    def chain(node):
+        t = node.test
+        if not (isinstance(t, ast.Compare) and len(t.ops) == 1 and isinstance(t.ops[0], ast.Eq) and ast.unparse(t.left) == "t"
+                and isinstance(t.comparators[0], ast.Constant) and isinstance(t.comparators[0].value, str)):
+            fail(node, "test of the type chain")
+        if len(node.orelse) == 1 and isinstance(node.orelse[0], ast.If):
+            rest = chain(node.orelse[0])
+        else:
+            rest = branch(node.orelse)
+        return '(if String.eqb t "%s" then %s else %s)' % (t.comparators[0].value, branch(node.body), rest)
+
+    return "Definition %s (t : string) (num_outcomes : nat) : option (list (string * nat)) :=\n  %s." % (coq_name, chain(body[0]))
+
+
+def check_generate_variable(tree):
+    """generate_cvxpy_variable must be exactly: num = num_cvxpy_variable(t, dim, num_outcomes); var = cp.Variable(num); return var
+    (an unrestricted vector variable of the translated length) -- checked, not translated"""
+    fdef = next((f for f in tree.body if isinstance(f, ast.FunctionDef) and f.name == "generate_cvxpy_variable"), None)
+    if fdef is None:
+        raise Unsupported("generate_cvxpy_variable not found")
+    got = [ast.unparse(x) for x in strip_doc(fdef.body)]
+    want = ["num = num_cvxpy_variable(t, dim, num_outcomes)", "var = cp.Variable(num)", "return var"]
+    if got != want:
+        fail(fdef, "generate_cvxpy_variable is %s, expected %s" % (got, want))
+
+
 HEADER = """(* GENERATED by gen/c11_py2coq.py from the current source of quara -- do not edit *)
 From Coq Require Import Arith List Bool String ZArith.
 From QV.Core Require Import OF Sums Mat.
@@ -575,6 +786,11 @@ Fixpoint gen_while (fuel : nat) (c : F -> bool) (b : F -> F) (a : F) : option F 
 
 %s
 End Gen_c11.
+
+Section Gen_c11_cvx.
+Context (F : OF).
+%s
+End Gen_c11_cvx.
 """
 
 
@@ -584,12 +800,22 @@ def main():
         t1 = ast.parse(open(os.path.join(repo, "quara/minimization_algorithm/projected_gradient_descent_backtracking.py")).read())
         isd = tr_is_doing(get_method(t1, "ProjectedGradientDescentBacktracking", "_is_doing_for_alpha"))
         body, skel = tr_optimize(get_method(t1, "ProjectedGradientDescentBacktracking", "optimize"))
+    except Unsupported as e:
+        print("UNSUPPORTED[pgdb]: %s" % e)
+        sys.exit(3)
+    try:
         t2 = ast.parse(open(os.path.join(repo, "quara/interface/cvxpy/conversion.py")).read())
         numv = tr_num_var(t2)
+        check_generate_variable(t2)
+        cons = "\n\n".join([tr_constraints(t2, "generate_cvxpy_constraints_from_cvxpy_variable", "gen_constraints_dense"),
+                            tr_constraints(t2, "generate_cvxpy_constraints_from_cvxpy_variable_with_sparsity", "gen_constraints_sparse")])
+        t3 = ast.parse(open(os.path.join(repo, "quara/interface/cvxpy/qtomography/standard/loss_function.py")).read())
+        losses = "\n\n".join([tr_cvx_loss(t3, "CvxpyRelativeEntropy", "gen_cvx_re"), tr_cvx_loss(t3, "CvxpyUniformSquaredError", "gen_cvx_se"),
+                              tr_cvx_loss(t3, "CvxpyApproximateRelativeEntropyWithZeroProbabilityTerm", "gen_cvx_are")])
     except Unsupported as e:
-        print("UNSUPPORTED: %s" % e)
-        sys.exit(3)
-    open(out, "w").write(HEADER % (numv, isd, body, skel))
+        print("UNSUPPORTED[cvx]: %s" % e)
+        sys.exit(4)
+    open(out, "w").write(HEADER % (numv + "\n\n" + cons, isd, body, skel, losses))
 
 
 if __name__ == "__main__":
